@@ -517,6 +517,32 @@ func c11Swap(c *Ctx) {
 				for _, r := range *v.Referrers() {
 					switch x := r.(type) {
 					case *ssa.Return:
+						// a helper that returns with the lock held and hands the release to its caller
+						// ("store, release := s.acquire(); defer release()"): the critical section
+						// continues in the callers, the value is followed there
+						if _, _, handOff := lockHandOff(x.Parent()); handOff {
+							idx := -1
+							for i, res := range x.Results {
+								if res == v {
+									idx = i
+								}
+							}
+							for _, cs := range helperSites[x.Parent()] {
+								call, isCall := cs.(*ssa.Call)
+								if !isCall || call.Referrers() == nil {
+									continue
+								}
+								saved := lf
+								lf = analyseLocks(call.Parent())
+								for _, r2 := range *call.Referrers() {
+									if ex, ok := r2.(*ssa.Extract); ok && ex.Index == idx {
+										walk(ex, depth+1)
+									}
+								}
+								lf = saved
+							}
+							continue
+						}
 						c.bad(key, x.Pos(), "the store loaded from SwapStore.s is returned out of the critical section: a request can run on it after Swap closed it")
 					case *ssa.Store:
 						if x.Val == v {
